@@ -1,5 +1,6 @@
 import OvniModel.Emu.View
 import OvniModel.Emu.MarkEmu
+import OvniModel.Emu.PvText
 import Drivers.Util
 namespace Drivers.Emu
 open Ovni.Emu
@@ -12,6 +13,15 @@ structure S where
   /-- mark definitions per thread (gindex order kept by insertion: (thread, def)) -/
   marks : List (Nat × MarkIn) := []
   marktab : List MarkType := []
+  /-- C13 text level (`pvmode`): the emulator with its patch bay and the two .prv files -/
+  pv : Bool := false
+  x : Option XEmu := none
+  /-- clock of the first event (`dclock` = clock - first clock) -/
+  t0 : Option Int := none
+  appids : List Int := []
+  phys : List Nat := []
+  /-- (model char, process index, gid, label) in creation order -/
+  tasktypes : List (Nat × Nat × Int × List Char) := []
 
 def errName : Err → String
   | .chanType => "chan" | .chanDirty => "chan-dirty" | .chanDup => "chan-dup" | .stackFull => "stack-full"
@@ -31,6 +41,22 @@ def step (s : S) (ws : List String) : S × String :=
     match tid.toInt?, pid.toInt?, loom.toNat? with
     | some t, some p, some l => ({ s with threads := s.threads ++ [(t, p, l)] }, "ok")
     | _, _, _ => (s, "bad-op")
+  | ["thread", tid, pid, loom, appid] =>
+    match tid.toInt?, pid.toInt?, loom.toNat?, appid.toInt? with
+    | some t, some p, some l, some a =>
+      ({ s with threads := s.threads ++ [(t, p, l)], appids := s.appids ++ [a] }, "ok")
+    | _, _, _, _ => (s, "bad-op")
+  | ["cpu", loom, index, virt, phy] =>
+    match loom.toNat?, index.toInt?, phy.toInt? with
+    | some l, some i, some ph =>
+      ({ s with cpus := s.cpus ++ [(l, i, decide (virt = "1"))], phys := s.phys ++ [ph.toNat] }, "ok")
+    | _, _, _ => (s, "bad-op")
+  | ["pvmode"] => ({ s with pv := true }, "ok")
+  | ["tasktype", ch, proc, gid, label] =>
+    match ch.toNat?, proc.toNat?, gid.toInt?, Drivers.hexBytes label with
+    | some ch, some pr, some g, some b =>
+      ({ s with tasktypes := s.tasktypes ++ [(ch, pr, g, b.map Char.ofNat)] }, "ok")
+    | _, _, _, _ => (s, "bad-op")
   | ["cpu", loom, index, virt] =>
     match loom.toNat?, index.toInt? with
     | some l, some i => ({ s with cpus := s.cpus ++ [(l, i, decide (virt = "1"))] }, "ok")
@@ -59,16 +85,44 @@ def step (s : S) (ws : List String) : S × String :=
       match mergeMarks perThread with
       | .error _ => ({ s with failed := true }, "err marks")
       | .ok tab =>
-        ({ s with emu := some (mkEmu s.threads s.cpus en (decide (lint = "1")) (markExtra tab)), marktab := tab }, "ok")
+        let e := mkEmu s.threads s.cpus en (decide (lint = "1")) (markExtra tab)
+        let x := if s.pv then (XEmu.init e).toOption else none
+        ({ s with emu := some e, marktab := tab, x := x }, "ok")
     | none => (s, "bad-op")
-  | ["ev", ti, _time, mcv, payload] =>
+  | ["ev", ti, time, mcv, payload] =>
     if s.failed then (s, "skip") else
     match s.emu, ti.toNat?, Drivers.hexBytes mcv, Drivers.hexBytes payload with
     | some e, some ti, some [m, c, v], some p =>
       match stepEv e ti m c v p noHook (fun e ti _ v p => markEvent s.marktab e ti v p) with
-      | .ok (e', rs) => ({ s with emu := some e' }, "ok " ++ ",".intercalate (rs.map showRec))
+      | .ok (e', rs) =>
+        -- text level: the same event through the emulator with its patch bay
+        let clk : Int := time.toInt?.getD 0
+        let t0 := s.t0.getD clk
+        let x' := match s.x with
+          | some x => (x.step (clk - t0) ti m c v p noHook (fun e ti _ v p => markEvent s.marktab e ti v p)).toOption
+          | none => none
+        ({ s with emu := some e', x := x', t0 := some t0 }, "ok " ++ ",".intercalate (rs.map showRec))
       | .error er => ({ s with failed := true }, "err " ++ errName er)
     | _, _, _, _ => (s, "bad-op")
+  | ["pvtext"] =>
+    -- the six files of the run as hex: thread.prv cpu.prv thread.pcf cpu.pcf thread.row cpu.row
+    match s.x with
+    | none => (s, "pvtext none")
+    | some x =>
+      let chars := s.tasktypes.map (·.1) |>.eraseDups
+      let byModel : List (Nat × List (List (Int × PvText.Text))) :=
+        ((sortByChar (allSpecs.filter fun sp => chars.contains sp.char)).map (·.char)).map fun ch =>
+          let mine := s.tasktypes.filter (·.1 == ch)
+          let nproc := (mine.map (·.2.1 + 1)).foldl max 0
+          (ch, (List.range nproc).map fun pr => (mine.filter (·.2.1 == pr)).map fun t => (t.2.2.1, t.2.2.2))
+      let names : PvText.Names :=
+        { appids := s.appids, cpus := x.emu.cpus.mapIdx (fun g c => (c.loom, s.phys.getD g 0)),
+          marks := s.marktab, tasks := byModel }
+      match PvText.files x names with
+      | .error _ => (s, "pvtext err")
+      | .ok f =>
+        let hex (t : PvText.Text) : String := Drivers.toHex (t.map Char.toNat)
+        (s, s!"pvtext {hex f.threadPrv} {hex f.cpuPrv} {hex f.threadPcf} {hex f.cpuPcf} {hex f.threadRow} {hex f.cpuRow}")
   | ["pcf"] =>
     (s, "pcf " ++ ";".intercalate ((markPcf s.marktab).map fun (ty, title, ls) =>
       s!"{ty}:{Drivers.toHex (title.toList.map Char.toNat)}:" ++
